@@ -103,6 +103,7 @@ def new_interp(ctx, contract_obj):
     libmodels.install_stubs(it)
     it.stubs.update(contract_obj.stubs(it) or {})
     it.loop_cuts.update(getattr(contract_obj, "loop_cuts", {}) or {})
+    it.loop_specs.update(getattr(contract_obj, "loop_specs", {}) or {})
     return it
 
 
@@ -220,8 +221,10 @@ def run_case(cid, case_id, tier="quick", known_regions=None, seed=0):
                     regions[cname] = [truth_val(c.regions[r](s)) for r in rnames]
             except PathAbort:
                 work.extend(ctx.new_alternatives)
+                side_obligations(res, ctx, timeout, stats, both)
                 continue
             work.extend(ctx.new_alternatives)
+            side_obligations(res, ctx, timeout, stats, both)
             npaths += 1
             if npaths > c.max_paths:
                 raise Unsupported("path budget exceeded (%d)" % c.max_paths)
@@ -276,6 +279,27 @@ def run_case(cid, case_id, tier="quick", known_regions=None, seed=0):
     if missing and not res["undecided"]:
         res["uncovered_exits"] = missing
     return res
+
+
+def side_obligations(res, ctx, timeout, stats, both):
+    for name, goal, pc in ctx.side_obligations:
+        ent = res["clauses"].setdefault(name, {"status": "proved", "paths": 0, "side": True})
+        ent["paths"] += 1
+        st, m, be = discharge(pc, goal, timeout, stats, both=both)
+        res["by_backend"][be] = res["by_backend"].get(be, 0) + 1
+        if st == "proved":
+            continue
+        if st == "refuted":
+            if ent["status"] != "refuted":
+                ent["status"] = "refuted"
+                ent["cex"] = []
+            if len(ent["cex"]) < 2:
+                ent["cex"].append({"oracle": jsonable(model_to_oracle(m, ctx.symbols)) if m is not None else None,
+                                   "exit": "loop", "decisions": dec_str(ctx), "backend": be,
+                                   "replay": {"status": "no-concretiser", "why": "loop obligation over a havoc'd state"}})
+        elif ent["status"] == "proved":
+            ent["status"] = "unknown"
+            ent["unknown_at"] = dec_str(ctx)
 
 
 def dec_str(ctx):
@@ -362,6 +386,7 @@ def xcheck(cid, case_id, n, seed):
     c = REGISTRY[cid]
     if not c.xcheck:
         return 0, []
+    n = min(n, getattr(c, "xcheck_n", n)) if n <= 20 else min(n, 10 * getattr(c, "xcheck_n", n))
     rng = random.Random(seed)
     runs = 0
     bad = []
